@@ -227,6 +227,10 @@ def _grid(R, rng, ctx):
         vals = [v for v in pool[k] if v != defaults[k]] if k != "common_subexpression_elimination" else list(pool[k])
         rng.shuffle(vals)
         grid[k] = vals[:2]
+    # one candidate never rejects, the other rejects the outlier rows: the scores cannot tie
+    iv = [None, rng.choice([0.25, 0.5, 1.5])]
+    rng.shuffle(iv)
+    grid["innovation_filtering"] = iv
     X = data_for(rng, defn, rng.randint(5, 6))
     X[1::2, -1] *= 12.0  # outlier readings: rejected for small thresholds, used for large / disabled
     _grid_once(R, rng, defn, b, grid, X, reverse=False)
